@@ -284,6 +284,29 @@ func runPorts(c *fw.Case, sub int) {
 			}
 		}
 	}
+	// one-way traffic towards multicast / broadcast destinations: there is no mirror packet, the
+	// observed classification is only counted (coverage of the documented multicast rule)
+	for i := 0; i < 400; i++ {
+		v6 := r.Intn(2) == 0
+		var d []byte
+		for {
+			d = capfn.RandAddr(r, v6)
+			if capfn.IsMulticastOrBroadcast(d) {
+				break
+			}
+		}
+		h := capfn.Hdr{V6: v6, Src: capfn.RandUnicast(r, v6), Dst: d, Proto: capfn.UDP, Sport: capfn.RandPort(r), Dport: capfn.RandPort(r)}
+		s := stored(h.Bytes(), v6)
+		if s.errno != capturetypes.ErrnoOK {
+			c.Violatef("parse_error|"+fam(v6)+"_udp", "well-formed packet not parsed: errno %d for %s", s.errno, h)
+			continue
+		}
+		if s.reverted {
+			c.Count("udp_to_multicast_reverted", 1)
+		} else {
+			c.Count("udp_to_multicast_kept", 1)
+		}
+	}
 	// seeded random port pairs on top of the product
 	for i := 0; i < 20000; i++ {
 		v6 := r.Intn(2) == 0
